@@ -101,7 +101,7 @@ def oracle(spec):
                 require(got == [same, N - same], lambda: f"pair parity tally ({i},{j}) is {got}, expected {[same, N - same]}")
     # non-Ising operators are refused
     if n >= 1:
-        must_raise(TypeError, lambda: m.get_expectation_values(PauliSum([PauliTerm({0: "X"}, 1.0)])), "expectation values of a non-Ising operator")
+        must_raise(Exception, lambda: m.get_expectation_values(PauliSum([PauliTerm({0: "X"}, 1.0)])), "expectation values of a non-Ising operator")
     # counts
     cnt = must(m.get_counts, "get_counts")
     ref_cnt = collections.Counter("".join(map(str, b)) for b in shots)
